@@ -157,7 +157,7 @@ Qed.
 
 Definition ex_filter (tbl : string) : cfilter :=
   {| f_op := s2r "contains"; f_arg := [];
-     f_ref := {| r_ig := s2r "b"; r_table := s2r tbl; r_col := s2r "x" |} |}.
+     f_ref := {| r_ig := s2r "a"; r_table := s2r tbl; r_col := s2r "x" |} |}.
 Definition ex_ig (tname uniq tbl : string) : integ :=
   {| ig_name := s2r "a"; ig_enabled := true; ig_sources := [s2r "main"];
      ig_table := {| t_name := s2r tname; t_cols := [{| c_name := s2r "x"; c_type := s2r "bytea" |}];
@@ -172,7 +172,7 @@ Definition ex_root (tname uniq tbl : string) : root :=
 (* an accepted configuration: statements are issued, with splices *)
 Example ex_accepted :
   match validate_fix U_ascii G (ex_root "t" "x" "t") with
-  | Some c' => List.length (all_sql_file reserved (s2r "v") c') = 16%nat
+  | Some c' => List.length (all_sql_file reserved (s2r "v") c') = 17%nat
   | None => False
   end.
 Proof. vm_compute. reflexivity. Qed.
